@@ -954,9 +954,11 @@ Proof.
         destruct (verts p); try (intros E; inversion E; reflexivity);
         destruct (Nat.eqb _ _); intros E; inversion E; reflexivity.
     + intros E; inversion E; reflexivity.
-    + destruct (geok p); intros E; inversion E; reflexivity.
+    + destruct (geok p); try (intros E; inversion E; reflexivity);
+        destruct (Nat.eqb _ _); intros E; inversion E; reflexivity.
     + destruct (geok p); try (intros E; inversion E; reflexivity);
         destruct (verts p); try (intros E; inversion E; reflexivity);
+        destruct (Nat.eqb _ _); try (intros E; inversion E; reflexivity);
         destruct (Nat.eqb _ _); intros E; inversion E; reflexivity.
   - destruct (cmk cx) as [|m|m|cm|m cm]; destruct (vals p) as [v|]; try (intros E; inversion E; reflexivity).
     + destruct (negb _); [discriminate|]. destruct (match asc p with ACell => pnc cx | _ => pnv cx end); [|discriminate].
@@ -1131,6 +1133,76 @@ Proof.
 Qed.
 
 (* ------------------------------------------------------------------ the two refuted full statements and their witnesses *)
+(* ------------------------------------------------------------------ the cell_mask keyword of CellObject.copy *)
+Definition has_cells (p : payload) : Prop := knd p = KObject /\ (geok p = GCells \/ geok p = GCurve).
+
+(* cell mask alone: the constructor of the copy receives every vertex and exactly the selected cells; a cell mask of another
+   length is refused *)
+Theorem cells_mask_payload cx p p' cm :
+  cmk cx = CCells cm -> has_cells p -> masked_payload cx p = Ok p' ->
+  length cm = length (cells p) /\ verts p' = verts p /\ cells p' = compress cm (cells p) /\ vals p' = vals p.
+Proof.
+  intros Hc [Hk Hg] E. unfold masked_payload in E. rewrite Hk, Hc in E.
+  assert (E' : (if Nat.eqb (length cm) (length (cells p)) then Ok (set_payload p (verts p) (compress cm (cells p)) (vals p)) else Err EIndex) = Ok p')
+    by (destruct Hg as [Hg|Hg]; rewrite Hg in E; exact E).
+  destruct (Nat.eqb (length cm) (length (cells p))) eqn:El; [|discriminate]. apply Nat.eqb_eq in El.
+  inversion E'; subst p'. repeat split; try reflexivity. exact El.
+Qed.
+
+(* vertex mask and cell mask together: the kept vertices, and the SELECTED cells re-indexed over the kept vertices (the explicit
+   cell mask replaces the derived "all vertices kept") *)
+Theorem both_mask_payload cx p p' m cm :
+  cmk cx = CBoth m cm -> has_cells p -> verts p <> [] -> masked_payload cx p = Ok p' ->
+  length m = length (verts p) /\ length cm = length (cells p)
+  /\ verts p' = compress m (verts p)
+  /\ cells p' = map (map (fun v => nth v (new_ids m) 1)) (compress cm (cells p)) /\ vals p' = vals p.
+Proof.
+  intros Hc [Hk Hg] Hv E. unfold masked_payload in E. rewrite Hk, Hc in E.
+  assert (E' : (if Nat.eqb (length m) (length (verts p))
+                then if Nat.eqb (length cm) (length (cells p))
+                     then Ok (set_payload p (compress m (verts p)) (map (map (fun v => nth v (new_ids m) 1)) (compress cm (cells p))) (vals p))
+                     else Err EIndex
+                else Err EMaskShape) = Ok p').
+  { destruct Hg as [Hg|Hg]; rewrite Hg in E; destruct (verts p); try (exfalso; apply Hv; reflexivity); exact E. }
+  destruct (Nat.eqb (length m) (length (verts p))) eqn:E1; [|discriminate].
+  destruct (Nat.eqb (length cm) (length (cells p))) eqn:E2; [|discriminate].
+  apply Nat.eqb_eq in E1. apply Nat.eqb_eq in E2. inversion E'; subst p'. repeat split; try reflexivity; assumption.
+Qed.
+
+Lemma in_compress {A} (x : A) : forall m l, In x (compress m l) -> In x l.
+Proof.
+  induction m as [|b m IH]; intros [|y l] H; simpl in *; try contradiction.
+  destruct b; [destruct H as [H|H]; [left; exact H | right; apply IH; exact H] | right; apply IH; exact H].
+Qed.
+
+(* ... and every selected cell whose vertices are all kept joins, in the copy, the same vertex tokens as in the source *)
+Theorem both_mask_cells_same_vertices cx p p' m cm c :
+  cmk cx = CBoth m cm -> has_cells p -> verts p <> [] -> masked_payload cx p = Ok p' ->
+  In c (compress cm (cells p)) -> cell_kept m c = true ->
+  In (map (fun v => nth v (new_ids m) 1) c) (cells p')
+  /\ map (nth_error (verts p')) (map (fun v => nth v (new_ids m) 1) c) = map (nth_error (verts p)) c.
+Proof.
+  intros Hc Hh Hv E Hin Hk. destruct (both_mask_payload cx p p' m cm Hc Hh Hv E) as (_ & _ & Ev & Ec & _).
+  split; [rewrite Ec; apply in_map; exact Hin|]. rewrite Ev. apply masked_cell_same_vertices. exact Hk.
+Qed.
+
+(* which mask each data child receives: CELL data the cell mask, VERTEX data the vertex mask (none when only cells are selected),
+   OBJECT-association data none *)
+Theorem cell_mask_children cx p c :
+  has_cells p -> knd c = KData ->
+  (forall cm, cmk cx = CCells cm -> child_cmask cx p c = match asc c with ACell => CMask cm | _ => CNone end)
+  /\ (forall m cm, cmk cx = CBoth m cm ->
+        child_cmask cx p c = match asc c with AVertex => CMask m | ACell => CMask cm | AObject => CNone end).
+Proof.
+  intros [Hk Hg] Hc. split; [intros cm H | intros m cm H]; unfold child_cmask; rewrite Hk, H; destruct Hg as [Hg|Hg]; rewrite Hg, Hc; reflexivity.
+Qed.
+
+(* Group.copy forwards the vertex mask only *)
+Theorem group_forwards_vertex_mask cx p c :
+  knd p = KGroup ->
+  child_cmask cx p c = match cmk cx with CBoth m _ => CMask m | CCells _ => CNone | x => x end.
+Proof. intros H. unfold child_cmask. rewrite H. reflexivity. Qed.
+
 Definition o_plain : opts := {| o_children := true; o_mask := None; o_omit_meta := false; o_over := []; o_clear := false; o_cmask := None |}.
 Definition o_clearing : opts := {| o_children := true; o_mask := None; o_omit_meta := false; o_over := []; o_clear := true; o_cmask := None |}.
 
@@ -1142,6 +1214,43 @@ Definition w_alias : world :=
   {| wsA := T (mkn 0 p_root []) [T (mkn 1 p_points [mkg 3 4%Z [2%N]]) [T (mkn 2 p_data []) []]];
      wsB := T (mkn 9 p_root []) [];
      heap := [(50%N, [(1, 1)%Z])]; wnext := 100%N |}.
+
+(* a curve with 4 vertices and 3 segments, one VERTEX and one CELL data child; copied into the other workspace with the vertex mask
+   [0;1;1;1] and the cell mask [0;1;0]: the copy keeps the vertices 21,22,23, the ONE selected segment (1,2) re-indexed to (0,1)
+   — not the two segments (1,2),(2,3) that "all vertices kept" would give —, the vertex values 2,3,4 and the cell value 8 *)
+Definition p_curve3 : payload := mkp 1 KObject GCurve AObject [] [20; 21; 22; 23]%Z [[0; 1]; [1; 2]; [2; 3]] 0 None None false None.
+Definition p_vdata : payload := mkp 2 KData GPlain AVertex [] [] [] 0 (Some [Some 1; Some 2; Some 3; Some 4]%Z) None false None.
+Definition p_cdata : payload := mkp 3 KData GPlain ACell [] [] [] 0 (Some [Some 7; Some 8; Some 9]%Z) None false None.
+Definition w_cells : world :=
+  {| wsA := T (mkn 0 p_root []) [T (mkn 1 p_curve3 []) [T (mkn 2 p_vdata []) []; T (mkn 3 p_cdata []) []]];
+     wsB := T (mkn 9 p_root []) [];
+     heap := []; wnext := 100%N |}.
+Definition o_both : opts :=
+  {| o_children := true; o_mask := Some [false; true; true; true]; o_omit_meta := false; o_over := []; o_clear := false;
+     o_cmask := Some [false; true; false] |}.
+Definition o_cells : opts :=
+  {| o_children := true; o_mask := None; o_omit_meta := false; o_over := []; o_clear := false; o_cmask := Some [true; false; true] |}.
+
+Definition geom_of (w : world) (b : bool) (u : uid) : option (list Z * list (list nat) * list (option (list (option Z)))) :=
+  match tfind u (ws w b) with
+  | Some t => Some (verts (pl (root_node t)), cells (pl (root_node t)), map (fun c => vals (pl (root_node c))) (children t))
+  | None => None
+  end.
+
+Example cell_mask_nonvacuous :
+  (exists w' nu r, copy w_cells false 1%N true 9%N o_both = Ok (w', nu, r)
+     /\ geom_of w' true nu = Some ([21; 22; 23]%Z, [[0; 1]], [Some [Some 2; Some 3; Some 4]%Z; Some [Some 8]%Z])
+     /\ geom_of w' false 1%N = geom_of w_cells false 1%N)
+  /\ (exists w' nu r, copy w_cells false 1%N true 9%N o_cells = Ok (w', nu, r)
+     /\ geom_of w' true nu = Some ([20; 21; 22; 23]%Z, [[0; 1]; [2; 3]], [Some [Some 1; Some 2; Some 3; Some 4]%Z; Some [Some 7; Some 9]%Z]))
+  /\ copy w_cells false 1%N true 9%N {| o_children := true; o_mask := None; o_omit_meta := false; o_over := []; o_clear := false;
+                                          o_cmask := Some [true; false] |} = Err EIndex.
+Proof.
+  split; [|split].
+  - eexists _, _, _. split; [vm_compute; reflexivity|]. split; vm_compute; reflexivity.
+  - eexists _, _, _. split; [vm_compute; reflexivity|]. vm_compute; reflexivity.
+  - vm_compute. reflexivity.
+Qed.
 
 (* later edits of the copy never show through in a pre-existing entity *)
 Definition no_alias_full : Prop :=
